@@ -169,3 +169,26 @@ def corral_grid(sym, eta, T, mode):
             sym.fail(f"round {t}: Corral.learn raised {type(e).__name__}: {e} (eta={eta},T={T},mode={mode},bases={bases},r={r},{how})")
         ps = lrn._ps
         sym.check(all(w > 0 for w in ps) and abs(sum(ps)-1) < 1e-3, f"after learn Corral weights {ps} are not a strictly positive distribution (1e-3)")
+
+@obligation('C16','corral_long', bounds="NOT symbolic: concrete runs of 120 rounds. Corral over 2 deterministic base learners picking different actions, or Random+BanditEpsilon; eta in {0.5,1}; finite horizons T in {4,20,1000} and inf; both modes; reward schedule in {always 0, always 1, 1 only for the first base learner's pick, alternating}: after every round the base-learner weights (raw and smoothed) are a strictly positive distribution and the reported probability is in (0,1]",
+            functions=FUNCS, params=lambda tier: [dict(eta=e, T=T, mode=m) for e in (0.5,1) for T in (4,20,1000,math.inf) for m in ('importance','off-policy')], classify=_classify)
+def corral_long(sym, eta, T, mode):
+    bases = sym.choice('bases', ['disagree','builtin'])
+    sched = sym.choice('rewards', ['zero','one','first','alternate'])
+    base = {'disagree': lambda: [_Base(0),_Base(1)], 'builtin': lambda: [RandomLearner(1), BanditEpsilonLearner(.1,2)]}[bases]()
+    lrn = CorralLearner(base, eta=eta, T=T, mode=mode, seed=1)
+    actions = ['A','B','C']
+    for t in range(120):
+        try: pred = lrn.predict(None, actions)
+        except Exception as e: sym.fail(f"round {t}: Corral.predict raised {type(e).__name__}: {e} (eta={eta},T={T},mode={mode},bases={bases},{sched})")
+        a, p, kw = pred[0], pred[1], (pred[2] if len(pred) > 2 else {})
+        sym.check(a in actions and 0 < p <= 1+1e-3, f"round {t}: Corral returned ({a},{p})")
+        ps = lrn._p_bars
+        sym.check(all(w > 0 for w in ps) and abs(sum(ps)-1) < 1e-3, f"round {t}: smoothed Corral weights {ps} are not a strictly positive distribution (eta={eta},T={T},mode={mode},bases={bases},{sched})")
+        r = {'zero':0, 'one':1, 'first': 1 if a == 'A' else 0, 'alternate': t % 2}[sched]
+        try: lrn.learn(None, a, r, p, **kw)
+        except Exception as e: sym.fail(f"round {t}: Corral.learn raised {type(e).__name__}: {e} (eta={eta},T={T},mode={mode},bases={bases},{sched})")
+        ps = lrn._ps
+        sym.check(all(w > 0 for w in ps) and abs(sum(ps)-1) < 1e-3, f"round {t}: after learn Corral weights {ps} are not a strictly positive distribution (eta={eta},T={T},mode={mode},bases={bases},{sched})")
+        ps = lrn._p_bars
+        sym.check(all(w > 0 for w in ps) and abs(sum(ps)-1) < 1e-3, f"round {t}: after learn smoothed Corral weights {ps} are not a strictly positive distribution (eta={eta},T={T},mode={mode},bases={bases},{sched})")
